@@ -211,7 +211,7 @@ def sib2(ctx, pid):
     else:
         ctx.bad("zero-length:HexaryTrie.root_node", rn.loc(), "root_node returns `%s`" % "; ".join(tstr(o)[:60] for o in outs))
     tv = H(ctx, "_traverse")
-    outs = {st.ret for p, st in pq.states(ctx, tv) if p.exit[0] == "return"}
+    outs = pq.rets(ctx, tv)
     w = ("call", HEX + "._traverse_from", (("self",), ("call", HEX + ".get_node", (("self",), ("p", tv.params[1])), ()), ("p", tv.params[2])), ())
     if outs == {w}:
         ctx.ok("start:HexaryTrie._traverse", tv.loc(), "_traverse starts _traverse_from at the root node with the whole key")
@@ -352,7 +352,7 @@ def prov7(ctx, pid):
     cls = ctx.P.cls("trie.exceptions:TraversedPartialPath")
     for name, idx in (("nibbles_traversed", 0), ("node", 1), ("untraversed_tail", 2)):
         g = cls.methods[name]
-        outs = {st.ret for p, st in pq.states(ctx, g) if p.exit[0] == "return"}
+        outs = pq.rets(ctx, g)
         if outs == {("sub", ("attr", ("self",), "args"), C(idx))}:
             ctx.ok("accessor:TraversedPartialPath.%s" % name, g.loc(), "args[%d]" % idx, nontrivial=False)
         else:
